@@ -83,6 +83,27 @@ add("C18", "P", "exploration",
     "Trusted: arithmetic in sim/monitors.py; 1e-9 relative.",
     "seeded histories with solver-vertex exploration and buggified hand-offs; boundary-capture monitor", "DESIGN.md 5/C18")
 
+add("C11", "A", "exploration",
+    "Stateful operation machine over a pool of <= 6 real Food objects: seeded op sequences (construct, + - * /, negation, indexing, "
+    "month extraction, sums, running sums, min/max, elementwise min, rounding, clipping, shift, conversions, the comparison predicates) "
+    "interleaved with environment ops that flip the process-wide fat/protein inclusion flags and change population / daily needs "
+    "(what another job does between two uses of a quantity). After every op a reference label algebra (numbers, three labels, shape) is "
+    "compared: labels, units-list consistency, operands bit-identical to snapshots, mixed units refused, numbers at 1e-12, predicate "
+    "on a scalar == predicate on its one-month series under all four flag settings. ~97k ops quick, ~1.9M thorough.",
+    "Trusted: the reference label rules in sim/engine_a.py (from the property statement, class docstrings and shipped tests). Ops the "
+    "class refuses are counted, not flagged. Seven genuine defects found here were repaired by fix: commits (known_findings.jsonl).",
+    "seeded stateful op/environment sequences against a reference model, with shrinking", "DESIGN.md 5/C11")
+add("C13", "O", "fault_enumeration",
+    "The option dictionary is treated as a bag of messages to the Scenarios node; message faults: drop a family, unknown value, unknown "
+    "extra key, permuted order, duplicate setter call (all ordered pairs within a family, cross-family pairs), the same caller "
+    "dictionary for two countries, numeric overrides (every species column x country through the herd-table read seam). Oracle: "
+    "documented option table (README + setter docstrings) -> exact constants diff; rejection before compute_parameters_first_round can "
+    "be reached; caller dictionary deep-equal to its snapshot; override changes exactly its target. Thorough enumerates the single-fault "
+    "space exhaustively (exhaustive: true); quick = fixed core + seeded sample.",
+    "Trusted: the reference option table in sim/engine_o.py; where the README is silent the setter body is a regression pin. Four genuine "
+    "defects found here were repaired by fix: commits (known_findings.jsonl).",
+    "exhaustive single-fault enumeration over option messages + seeded setter histories, reference option table", "DESIGN.md 5/C13")
+
 NOT_APPLICABLE = [
     {"property_id": "C10", "reason": "pure function of (value, unit names, four settings); nothing to schedule, fail or interleave - property-based enumeration is the right tool, outside this technique family (DESIGN.md 6)"},
     {"property_id": "C12", "reason": "relates the optimum of one LP to optima of perturbed copies: counterfactual re-solves of a pure function, not behaviour under any schedule or fault (DESIGN.md 6)"},
@@ -107,6 +128,8 @@ def main():
             "add_only": True,
         },
         "engines": [
+            {"name": "A", "path": "sim/engine_a.py", "serves_properties": ["C11"], "kind_free_text": "stateful op machine over real Food objects with environment (process-wide flag) ops and a reference label algebra"},
+            {"name": "O", "path": "sim/engine_o.py", "serves_properties": ["C13"], "kind_free_text": "option-message fault enumeration against the real dispatcher/setters; pipeline stubbed after dispatch"},
             {"name": "P", "path": "sim/engine_p.py", "serves_properties": ["C01", "C02", "C03", "C04", "C05", "C14", "C16", "C18"], "kind_free_text": "real pipeline (dispatch, parameters, 3 LP rounds, extract/interpret/validate, herd simulator, PuLP+CBC) inside simulated clock / results FS / solver seam with fault injection"},
         ],
         "checks": [CHECKS[k] for k in sorted(CHECKS)],
